@@ -26,7 +26,7 @@ Definition w_batch (p : pc) : option batch :=
   match p with
   | WInvoked b | WLocked b | WLinked b _ | WAssigned b _ _ | WPicked b _ _ _ | WAppending b _ _ _
   | WInserting b _ _ _ _ | WDropped b _ _ _ | WLocked2 b _ _ _ | WParked b _ _ _ | WHead b _ _ _
-  | WPublished b _ _ | WUnlinked b _ => Some b
+  | WPublished b _ _ | WUnlinked b _ | WFailed b _ _ | WFailedL b _ _ | WFailedU b _ => Some b
   | _ => None
   end.
 Definition w_assigned_only (p : pc) : option N := match p with WAssigned _ _ s => Some s | _ => None end.
@@ -733,6 +733,27 @@ Proof.
   - unfold st'. st_simpl. apply apply_compaction_nonempty, (d_tree_ne st d Hd).
 Qed.
 
+(* ------------------------------------------------------------------ LWFail: a write that has inserted
+   nothing gives up *)
+Lemma data_wfail st d t b idx s g :
+  Data st d -> getpc st t = WAppending b idx s g -> Data (with_pc st t (WFailed b idx s)) d.
+Proof.
+  intros Hd Hpc. set (st' := with_pc _ t _).
+  assert (E : forall g', ents st' g' = ents st g') by reflexivity.
+  assert (Gd : forall t', t' <> t -> getpc st' t' = getpc st t').
+  { intros t' Hne. unfold st'. autorewrite with kvs. destruct (Pos.eqb_spec t' t); [contradiction|reflexivity]. }
+  assert (Gt : getpc st' t = WFailed b idx s) by (unfold st'; apply getpc_with_pc_same).
+  constructor; unfold st'; st_simpl; fold st'; try apply Hd.
+  - intros t' b'. case_t t' t; [rewrite Gt|rewrite (Gd t' E0)]; [|apply (d_batch st d Hd)].
+    cbn. intros H. inversion H; subst. apply (d_batch st d Hd t). now rewrite Hpc.
+  - intros t' s'. case_t t' t; [rewrite Gt; discriminate|rewrite (Gd t' E0)]. apply (d_assigned st d Hd).
+  - intros t' b' s' g' n. case_t t' t; [rewrite Gt; discriminate|]. rewrite (Gd t' E0). intros Hw.
+    destruct (d_wdata st d Hd t' b' s' g' n Hw) as (H1 & H2 & H3). split; [exact H1|]. split; [exact H2|].
+    destruct H3 as [H3|(trig & G1 & G2 & G3 & G4 & G5)]; [now left|right]. exists trig. repeat split; auto.
+  - intros g' e He. destruct (d_ents st d Hd g' e He) as [H|(t' & b' & n & j & Hw & Hj & Hn)]; [now left|right].
+    case_t t' t; [rewrite Hpc in Hw; cbn in Hw; inversion Hw; subst; lia|]. exists t', b', n, j. now rewrite (Gd t' E0).
+Qed.
+
 (* ------------------------------------------------------------------ every step *)
 Definition commit_of (st : state) (l : label) (d : db) : db :=
   match l with
@@ -782,6 +803,10 @@ Proof.
   - (* LWPublish *) inv_guard H. subst st'. eapply data_wpublish; eauto.
   - (* LWUnlink *) inv_guard H. subst st'. dframe Hd t.
   - (* LWRet *) inv_guard H. subst st'. dframe Hd t.
+  - (* LWFail *) inversion H; subst st'. eapply data_wfail; eauto.
+  - (* LWLockF *) inv_guard H. subst st'. dframe Hd t.
+  - (* LWUnlinkF *) inv_guard H. subst st'. dframe Hd t.
+  - (* LWRetF *) inv_guard H. subst st'. dframe Hd t.
   - (* LInvR *) inversion H; subst st'. dframe Hd t.
   - (* LSnap *) inv_guard H. subst st'. destruct q; dframe Hd t.
   - (* LRMem *) inv_guard H. subst st'.
